@@ -926,26 +926,7 @@ impl<T: Serialize + for<'de> Deserialize<'de> + Clone + PartialEq + Send + Sync 
         for snapshot_path in snapshots.iter().rev() {
             match self.load_snapshot(snapshot_path).await {
                 Ok((header, loaded_state)) => {
-                    // Verify checksum
-                    let data = postcard::to_stdvec(&loaded_state).map_err(|e| {
-                        P2PError::Storage(StorageError::Database(
-                            format!("Failed to serialize for checksum: {e}").into(),
-                        ))
-                    })?;
-
-                    let mut hasher = Sha256::new();
-                    hasher.update(&data);
-                    let checksum: [u8; 32] = hasher.finalize().into();
-
-                    if checksum != header.checksum {
-                        stats.corruption_events.push(CorruptionEvent {
-                            file_path: snapshot_path.clone(),
-                            corruption_type: CorruptionType::ChecksumMismatch,
-                            offset: 0,
-                            recovery_action: RecoveryAction::Skipped,
-                        });
-                        continue;
-                    }
+                    // (checksum already verified by load_snapshot over the stored bytes)
 
                     // Load state
                     {
@@ -972,10 +953,16 @@ impl<T: Serialize + for<'de> Deserialize<'de> + Clone + PartialEq + Send + Sync 
 
                     return Ok(());
                 }
-                Err(_) => {
+                Err(e) => {
+                    let corruption_type = match e {
+                        P2PError::Storage(StorageError::CorruptionDetected(_)) => {
+                            CorruptionType::ChecksumMismatch
+                        }
+                        _ => CorruptionType::InvalidFormat,
+                    };
                     stats.corruption_events.push(CorruptionEvent {
                         file_path: snapshot_path.clone(),
-                        corruption_type: CorruptionType::InvalidFormat,
+                        corruption_type,
                         offset: 0,
                         recovery_action: RecoveryAction::Skipped,
                     });
@@ -1286,6 +1273,17 @@ impl<T: Serialize + for<'de> Deserialize<'de> + Clone + PartialEq + Send + Sync 
             ))
         })?;
 
+        // Verify the checksum over the bytes as stored. (Re-serialising the decoded
+        // map to check it cannot work: HashMap iteration order differs per instance.)
+        let mut hasher = Sha256::new();
+        hasher.update(&snapshot_data);
+        let checksum: [u8; 32] = hasher.finalize().into();
+        if checksum != header.checksum {
+            return Err(P2PError::Storage(StorageError::CorruptionDetected(
+                "Snapshot checksum mismatch".to_string().into(),
+            )));
+        }
+
         // Deserialize state
         let state: HashMap<String, T> = postcard::from_bytes(&snapshot_data).map_err(|e| {
             P2PError::Storage(StorageError::Database(
@@ -1500,28 +1498,8 @@ impl<T: Serialize + for<'de> Deserialize<'de> + Clone + PartialEq + Send + Sync 
 
     /// Verify snapshot integrity
     async fn verify_snapshot_integrity(&self, path: &Path) -> Result<()> {
-        let (header, state) = self.load_snapshot(path).await?;
-
-        // Verify checksum
-        let data = postcard::to_stdvec(&state).map_err(|e| {
-            P2PError::Storage(StorageError::Database(
-                format!("Failed to serialize for checksum: {e}").into(),
-            ))
-        })?;
-
-        let mut hasher = Sha256::new();
-        hasher.update(&data);
-        let checksum: [u8; 32] = hasher.finalize().into();
-
-        if checksum != header.checksum {
-            return Err(P2PError::Storage(
-                crate::error::StorageError::CorruptionDetected(
-                    "Snapshot checksum mismatch".to_string().into(),
-                ),
-            ));
-        }
-
-        Ok(())
+        // load_snapshot verifies the checksum over the stored bytes
+        self.load_snapshot(path).await.map(|_| ())
     }
 
     /// Verify WAL file integrity
